@@ -378,3 +378,111 @@ Proof.
   - destruct (Hr e (or_introl eq_refl)) as [s Hs]. unfold print_error. rewrite Hs. cbn.
     split; [reflexivity|]. exists s. auto.
 Qed.
+
+(* ---------------------------------------------------------------------------------- *)
+(* the errors the scanner raises are well-formed: the line number it counted (\n, \r, \r\n)
+   always points into text.splitlines(True), although that splits at more characters *)
+
+Ltac b2p := repeat match goal with
+  | H : _ || _ = true |- _ => apply orb_true_iff in H; destruct H as [H|H]
+  | H : _ && _ = true |- _ => apply andb_true_iff in H; destruct H
+  | H : (_ <=? _)%N = true |- _ => apply N.leb_le in H
+  | H : (_ =? _)%N = true |- _ => apply N.eqb_eq in H
+  | H : _ || _ = false |- _ => apply orb_false_iff in H; destruct H
+  | H : _ && _ = false |- _ => apply andb_false_iff in H; destruct H as [H|H]
+  | H : (_ <=? _)%N = false |- _ => apply N.leb_gt in H
+  | H : (_ =? _)%N = false |- _ => apply N.eqb_neq in H
+  end.
+
+(* every line boundary of splitlines is a whitespace character *)
+Lemma is_lb_space c : is_lb c = true -> is_space c = true.
+Proof.
+  intros H. destruct (is_space c) eqn:E; [reflexivity|exfalso].
+  unfold is_lb in H. unfold is_space in E. b2p; lia.
+Qed.
+
+Lemma nonspace_not_lb c : is_space c = false -> is_lb c = false.
+Proof. intros H. destruct (is_lb c) eqn:E; [|reflexivity]. apply is_lb_space in E. congruence. Qed.
+
+
+Lemma not_lb_neq c : is_lb c = false -> (c =? 10)%N = false /\ (c =? 13)%N = false.
+Proof.
+  intros H. split; apply N.eqb_neq; intros ->; discriminate H.
+Qed.
+
+Lemma count_newlines_cons c t : (count_newlines (c :: t) <= S (count_newlines t))%nat.
+Proof.
+  cbn [count_newlines]. destruct (c =? 10)%N; [lia|]. destruct (c =? 13)%N; [|lia].
+  destruct t as [|d t']; [cbn; lia|]. destruct (d =? 10)%N; lia.
+Qed.
+
+Lemma scanner_lineno_in_range n : forall ws, (length ws <= n)%nat ->
+  forall acc c0 r, is_lb c0 = false ->
+  (count_newlines ws < length (splitlines_aux true (ws ++ c0 :: r) acc))%nat.
+Proof.
+  induction n as [|n IH]; intros ws Hl acc c0 r Hc0.
+  - destruct ws; [|cbn in Hl; lia]. cbn [app count_newlines splitlines_aux]. rewrite Hc0.
+    pose proof (splitlines_aux_nonempty true r (c0 :: acc)) as Hn.
+    destruct (splitlines_aux true r (c0 :: acc)); [exfalso; apply Hn; [discriminate|reflexivity]|cbn; lia].
+  - destruct ws as [|c t].
+    + apply (IH []); [cbn; lia|exact Hc0].
+    + cbn [length] in Hl. cbn [app splitlines_aux]. destruct (is_lb c) eqn:Elb.
+      * destruct t as [|d t'].
+        { cbn [app]. destruct (not_lb_neq c0 Hc0) as [E10 _]. rewrite E10, andb_false_r.
+          cbn [length]. pose proof (IH [] ltac:(cbn; lia) [] c0 r Hc0) as H0. cbn [app count_newlines] in H0.
+          pose proof (count_newlines_cons c []) as Hc. change (count_newlines []) with O in Hc. lia. }
+        { cbn [app]. destruct ((c =? 13)%N && (d =? 10)%N) eqn:Ecr.
+          - apply andb_true_iff in Ecr as [E13 E10]. apply N.eqb_eq in E13, E10. subst c d.
+            cbn [length]. pose proof (IH t' ltac:(cbn in Hl; lia) [] c0 r Hc0) as H0.
+            change (count_newlines (13%N :: 10%N :: t')) with (S (count_newlines t')). lia.
+          - cbn [length]. pose proof (IH (d :: t') ltac:(cbn in Hl |- *; lia) [] c0 r Hc0) as H0.
+            cbn [app] in H0. pose proof (count_newlines_cons c (d :: t')). lia. }
+      * destruct (not_lb_neq c Elb) as [E10 E13].
+        cbn [count_newlines]. rewrite E10, E13. apply IH; [lia|exact Hc0].
+Qed.
+
+Lemma span_space_spec s : forall a b, span_space s = (a, b) ->
+  s = a ++ b /\ match b with [] => True | c :: _ => is_space c = false end.
+Proof.
+  induction s as [|c t IH]; intros a b H; cbn [span_space] in H.
+  - inversion H; subst. auto.
+  - destruct (is_space c) eqn:E.
+    + destruct (span_space t) as [a' b'] eqn:Et. inversion H; subst.
+      destruct (IH a' b eq_refl) as [-> Hb]. auto.
+    + inversion H; subst. cbn. auto.
+Qed.
+
+(* every error raised by Scanner.required is well-formed, hence (format_error_total) renders *)
+Lemma scanner_errors_wellformed text lit fn id e :
+  fn <> FnBad -> scanner_required text lit fn id = inr e -> wf_err e.
+Proof.
+  intros Hfn. unfold scanner_required.
+  destruct (span_space text) as [ws rest] eqn:Es.
+  destruct (span_space_spec text ws rest Es) as [Ht Hr].
+  destruct rest as [|c0 r].
+  - intros H; inversion H; subst. split; [exact Hfn|exact I].
+  - destruct (startswith (c0 :: r) lit); [discriminate|].
+    intros H; inversion H; subst e. split; [exact Hfn|]. cbn [e_ctx wf_ctx].
+    pose proof (scanner_lineno_in_range (length ws) ws (le_n _) [] c0 r (nonspace_not_lb c0 Hr)) as Hlt.
+    unfold splitlines. rewrite Ht. lia.
+Qed.
+
+Lemma scanner_errors_render text lit fn id e p :
+  fn <> FnBad -> scanner_required text lit fn id = inr e ->
+  exists s, format_error e p = Ok s /\ infix (p ++ err_str e) s /\ infix (e_msg e) s.
+Proof.
+  intros Hfn He. destruct (format_error_total e p (scanner_errors_wellformed _ _ _ _ _ Hfn He)) as (s & l & H1 & _ & H3 & H4).
+  eauto.
+Qed.
+
+(* a LowLevelParser error whose command start lies before the error position, both inside the
+   text, is well-formed (parse_bibliography sets command_start = pos - 1 after the '@') *)
+Lemma bib_ctx_wellformed (text : str) (start pos : Z) :
+  (0 <= start < pos)%Z -> (pos <= Z.of_nat (length text))%Z -> wf_ctx (CBib text (Some start) pos).
+Proof.
+  intros [H0 H1] H2. cbn [wf_ctx]. unfold pyslice, clamp_idx.
+  assert (E0 : (start <? 0)%Z = false) by (apply Z.ltb_ge; lia).
+  assert (E1 : (pos <? 0)%Z = false) by (apply Z.ltb_ge; lia).
+  rewrite E0, E1. intros Hnil. apply (f_equal (@length char)) in Hnil.
+  rewrite firstn_length, skipn_length in Hnil. cbn [length] in Hnil. lia.
+Qed.
